@@ -103,30 +103,64 @@ def _root_.Taskpool.Req.pend (r : Req) : Nat :=
 
 def _root_.Taskpool.Req.AcqOK (r : Req) : Prop := r.kind = .map → r.frame = .waitRoom → r.acquired = true
 
-/-- `r'` is `r` up to changes that move no map slot (a carried slot may only be dropped from the books) -/
+/-- the progress counters of a request -/
+structure Cnt where
+  kind : ReqKind
+  n0 : Nat
+  created : Nat
+  skipped : Nat
+  remaining : Nat
+  pulled : Nat
+  left : Nat
+deriving DecidableEq
+
+def _root_.Taskpool.Req.cnt (r : Req) : Cnt := ⟨r.kind, r.n0, r.created, r.skipped, r.remaining, r.pulled, r.items.length⟩
+
+/-- `r'` is `r` up to changes that move no map slot (a carried slot may only be dropped from the books), keep every
+progress counter, and leave the spawner's frame alone or move it to one that says nothing (`done`, `running`) -/
 structure MSigLe (r' r : Req) : Prop where
   value : r'.mapSem.value = r.mapSem.value
   grants : grantsL r'.mapSem.waiters = grantsL r.mapSem.waiters
   nc : r'.nc = r.nc
   pend : r'.pend ≤ r.pend
   acq : r.AcqOK → r'.AcqOK
+  cnt : r'.cnt = r.cnt
+  fr : r'.frame = r.frame ∨ r'.frame = .done ∨ r'.frame = .running
 
 /-- a request whose own books are balanced without any task (a newly registered one) -/
+def Cnt.fresh (c : Cnt) : Prop :=
+  c.created = 0 ∧ c.skipped = 0 ∧ c.pulled = 0 ∧ c.remaining + c.left = c.n0 ∧
+  (c.kind = .apply → c.left = 0) ∧ (c.kind = .map → c.remaining = 0)
+
 def FreshReq (r : Req) : Prop :=
-  (∃ v, r.mapSem.value = .fin v ∧ v + grantsL r.mapSem.waiters + r.pend ≤ r.nc) ∧ r.AcqOK
+  (∃ v, r.mapSem.value = .fin v ∧ v + grantsL r.mapSem.waiters + r.pend ≤ r.nc) ∧ r.AcqOK ∧ r.cnt.fresh ∧
+  (r.frame = .notStarted ∨ r.frame = .done ∨ r.frame = .running)
 
 theorem FreshReq.le {r' r : Req} (h : FreshReq r) (hle : MSigLe r' r) : FreshReq r' := by
-  obtain ⟨⟨v, hv, hs⟩, ha⟩ := h
-  refine ⟨⟨v, by rw [hle.value]; exact hv, ?_⟩, hle.acq ha⟩
-  rw [hle.grants, hle.nc]
-  have := hle.pend
-  omega
+  obtain ⟨⟨v, hv, hs⟩, ha, hc⟩ := h
+  refine ⟨⟨v, by rw [hle.value]; exact hv, ?_⟩, hle.acq ha, ?_⟩
+  · rw [hle.grants, hle.nc]
+    have := hle.pend
+    omega
+  · obtain ⟨c1, c2⟩ := hc
+    exact ⟨by rw [hle.cnt]; exact c1, by
+      rcases hle.fr with e | e | e
+      · rw [e]; exact c2
+      · right; left; exact e
+      · right; right; exact e⟩
 
-theorem MSigLe.refl (r : Req) : MSigLe r r := ⟨rfl, rfl, rfl, Nat.le_refl _, fun h => h⟩
+theorem MSigLe.refl (r : Req) : MSigLe r r := ⟨rfl, rfl, rfl, Nat.le_refl _, fun h => h, rfl, Or.inl rfl⟩
 
 theorem MSigLe.trans {a b c : Req} (h1 : MSigLe b a) (h2 : MSigLe c b) : MSigLe c a :=
   ⟨h2.value.trans h1.value, h2.grants.trans h1.grants, h2.nc.trans h1.nc, Nat.le_trans h2.pend h1.pend,
-    fun h => h2.acq (h1.acq h)⟩
+    fun h => h2.acq (h1.acq h), h2.cnt.trans h1.cnt, by
+      rcases h2.fr with e | e | e
+      · rcases h1.fr with e1 | e1 | e1
+        · exact Or.inl (e.trans e1)
+        · exact Or.inr (Or.inl (e.trans e1))
+        · exact Or.inr (Or.inr (e.trans e1))
+      · exact Or.inr (Or.inl e)
+      · exact Or.inr (Or.inr e)⟩
 
 /-- slot conservation of every call's own semaphore, as an inequality (a spawner that dies with an exception while it
 carries a slot takes the slot with it): `free + held by tasks + granted to the waiting spawner + carried ≤ num_concurrent` -/
@@ -135,6 +169,55 @@ structure MapOK (p : Pool) : Prop where
   le : ∀ (m : Nat) (r : Req), p.reqs[m]? = some r →
         ∃ v, r.mapSem.value = .fin v ∧ v + heldM p.tasks m + grantsL r.mapSem.waiters + r.pend ≤ r.nc
   acq : ∀ (m : Nat) (r : Req), p.reqs[m]? = some r → r.AcqOK
+
+/-! ### request accounting -/
+
+/-- tasks created for request `m` -/
+def tasksOf (ts : List PTask) (m : Nat) : Nat := ts.countP (fun t => t.req == m)
+
+/-- the books of one request (`k` = invocations of an apply/start request created but not yet taken off `remaining`):
+apply/start: `created + skipped + remaining = requested`; map: `pulled + left = length of the iterable`, every pulled
+element is a task, was skipped, or is the single element in hand — and whether one is in hand is determined by where
+the spawner is suspended -/
+def AccReq (c : Cnt) (fr : MFrame) (k : Int) : Prop :=
+  (c.kind = .apply → ((c.created + c.skipped + c.remaining : Nat) : Int) = c.n0 + k ∧ (fr = .waitRoom → 1 ≤ c.remaining) ∧
+    fr ≠ .waitMapSem) ∧
+  (c.kind = .map → c.pulled + c.left = c.n0 ∧ c.created + c.skipped ≤ c.pulled ∧ c.pulled ≤ c.created + c.skipped + 1 ∧
+    ((fr = .waitRoom ∨ fr = .waitMapSem) → c.pulled = c.created + c.skipped + 1) ∧
+    (fr = .notStarted → c.pulled = c.created + c.skipped))
+
+theorem AccReq.frame {c : Cnt} {fr fr' : MFrame} {k : Int} (h : AccReq c fr k)
+    (hf : fr' = fr ∨ fr' = .done ∨ fr' = .running) : AccReq c fr' k := by
+  rcases hf with e | e | e
+  · rw [e]; exact h
+  · subst e
+    refine ⟨fun hk => ⟨(h.1 hk).1, (fun x => by cases x), (fun x => by cases x)⟩, fun hk => ⟨(h.2 hk).1, (h.2 hk).2.1, (h.2 hk).2.2.1, ?_, ?_⟩⟩
+    · intro hx; rcases hx with x | x <;> cases x
+    · intro x; cases x
+  · subst e
+    refine ⟨fun hk => ⟨(h.1 hk).1, (fun x => by cases x), (fun x => by cases x)⟩, fun hk => ⟨(h.2 hk).1, (h.2 hk).2.1, (h.2 hk).2.2.1, ?_, ?_⟩⟩
+    · intro hx; rcases hx with x | x <;> cases x
+    · intro x; cases x
+
+theorem AccReq.fresh {c : Cnt} {fr : MFrame} (h : c.fresh) (hf : fr = .notStarted ∨ fr = .done ∨ fr = .running) :
+    AccReq c fr 0 := by
+  obtain ⟨a, b, c1, d, e, f⟩ := h
+  refine ⟨fun hk => ⟨?_, ?_, ?_⟩, fun hk => ⟨?_, ?_, ?_, ?_, ?_⟩⟩
+  · have := e hk; simp only [a, b]; omega
+  · intro hx; rcases hf with x | x | x <;> rw [x] at hx <;> cases hx
+  · intro hx; rcases hf with x | x | x <;> rw [x] at hx <;> cases hx
+  · have := f hk; omega
+  · omega
+  · omega
+  · intro hx; rcases hf with x | x | x <;> rcases hx with y | y <;> rw [x] at y <;> cases y
+  · intro _; omega
+
+/-- every task belongs to an existing request, a request has created exactly the tasks that name it, and its books
+balance -/
+structure AccOK (p : Pool) : Prop where
+  ref : ∀ (t : Nat) (tk : PTask), p.tasks[t]? = some tk → tk.req < p.reqs.length
+  tk : ∀ (m : Nat) (r : Req), p.reqs[m]? = some r → tasksOf p.tasks m = r.created
+  rq : ∀ (m : Nat) (r : Req), p.reqs[m]? = some r → AccReq r.cnt r.frame 0
 
 /-! ### what `flush` waits for -/
 
@@ -203,6 +286,7 @@ structure Good0 (cap : Cap) (L R : Bool) (p : Pool) : Prop where
 
 structure Good (cap : Cap) (L R : Bool) (p : Pool) : Prop extends Good0 cap L R p where
   map : MapOK p
+  acc : AccOK p
 
 /-- `q` is `p` up to changes that neither move a slot nor put a task (back) into a slot-holding phase -/
 structure Tame0 (p q : Pool) : Prop where
@@ -450,9 +534,42 @@ theorem Tame.map {p q : Pool} (h : Tame p q) (hm : MapOK p) : MapOK q := by
       rw [h.heldM_eq, h0]
       omega
   · intro m r' hr
-    rcases h.rq m r' hr with ⟨r, a, b⟩ | ⟨_, _, ha⟩
+    rcases h.rq m r' hr with ⟨r, a, b⟩ | ⟨_, _, ha, _⟩
     · exact b.acq (hm.acq m r a)
     · exact ha
+
+theorem tasksOf_fresh (p : Pool) (ha : AccOK p) (m : Nat) (hge : p.reqs.length ≤ m) : tasksOf p.tasks m = 0 := by
+  unfold tasksOf
+  rw [List.countP_eq_zero]
+  intro tk hmem
+  obtain ⟨i, hi, rfl⟩ := List.getElem_of_mem hmem
+  have := ha.ref i p.tasks[i] (by simp [hi])
+  have hne : p.tasks[i].req ≠ m := by omega
+  simp [hne]
+
+theorem Tame.tasksOf_eq {p q : Pool} (h : Tame p q) (m : Nat) : tasksOf q.tasks m = tasksOf p.tasks m :=
+  countP_pointwise _ _ _ h.len (fun t tk' ht => by
+    obtain ⟨tk, a, b⟩ := h.soft t tk' ht
+    exact ⟨tk, a, by rw [show tk'.req = tk.req from congrArg SoftP.req b]⟩)
+
+theorem Tame.acc {p q : Pool} (h : Tame p q) (ha : AccOK p) : AccOK q := by
+  refine ⟨?_, ?_, ?_⟩
+  · intro t tk' ht
+    obtain ⟨tk, a, b⟩ := h.soft t tk' ht
+    rw [show tk'.req = tk.req from congrArg SoftP.req b]
+    exact Nat.lt_of_lt_of_le (ha.ref t tk a) h.rql
+  · intro m r' hr
+    rw [h.tasksOf_eq]
+    rcases h.rq m r' hr with ⟨r, a, b⟩ | ⟨hge, _, _, hc, _⟩
+    · rw [ha.tk m r a]
+      exact (congrArg Cnt.created b.cnt).symm
+    · rw [tasksOf_fresh p ha m hge]
+      exact hc.1.symm
+  · intro m r' hr
+    rcases h.rq m r' hr with ⟨r, a, b⟩ | ⟨_, _, _, hc, hf⟩
+    · rw [b.cnt]
+      exact (ha.rq m r a).frame b.fr
+    · exact AccReq.fresh hc hf
 
 /-- the two extra clauses of the strict variant, as a bundle -/
 structure Strict (L R : Bool) (p : Pool) : Prop where
@@ -478,7 +595,7 @@ theorem Tame0.good0 {cap : Cap} {L R : Bool} {p q : Pool} (h : Tame0 p q) (hg : 
       rw [← e]; exact hg.al hl B hB⟩
 
 theorem Tame.good {cap : Cap} {L R : Bool} {p q : Pool} (h : Tame p q) (hg : Good cap L R p) : Good cap L R q :=
-  ⟨h.toTame0.good0 hg.toGood0, h.map hg.map⟩
+  ⟨h.toTame0.good0 hg.toGood0, h.map hg.map, h.acc hg.acc⟩
 
 /-- released flag of a task is preserved along a tame change -/
 theorem Tame0.released {p q : Pool} (h : Tame0 p q) (t : Nat) (tk : PTask) (hp : p.tasks[t]? = some tk) :
@@ -570,7 +687,8 @@ theorem tame0_modReq (p : Pool) (m : Nat) (f : Req → Req) : Tame0 p (p.modReq 
 
 /-- an update of a request that moves no map slot -/
 theorem tame_modReq (p : Pool) (m : Nat) (f : Req → Req)
-    (hf : ∀ x, MSigLe (f x) x := by intro x; exact ⟨rfl, rfl, rfl, Nat.le_refl _, fun h => h⟩) : Tame p (p.modReq m f) := by
+    (hf : ∀ x, MSigLe (f x) x := by intro x; exact ⟨rfl, rfl, rfl, Nat.le_refl _, fun h => h, rfl, Or.inl rfl⟩) :
+    Tame p (p.modReq m f) := by
   refine ⟨⟨rfl, rfl, rfl, rfl, rfl, rfl, rfl, fun h => h, List.Sublist.refl _, fun _ tk' h => ⟨tk', h, rfl⟩, rfl,
     fun h => h.of_soft rfl rfl rfl (fun _ tk' h => ⟨tk', h, rfl⟩), fun h => h.of_eq rfl rfl, rfl⟩,
     by simp [modReq], ?_⟩
@@ -729,7 +847,7 @@ theorem tame_metaCancel (p : Pool) (m) : Tame p (p.metaCancel m) := by
       · split
         · refine (tame_modReq p m _ ?_).trans (tame_schedMeta _ _)
           intro x
-          exact ⟨rfl, grantsL_cancelWaiterL m _, rfl, Nat.le_refl _, fun h => h⟩
+          exact ⟨rfl, grantsL_cancelWaiterL m _, rfl, Nat.le_refl _, fun h => h, rfl, Or.inl rfl⟩
         · exact tame_modReq p m _
 
 end Pool
